@@ -71,10 +71,14 @@ class ConcNamer:
                 return r.choice([0, 1, 2, 3, 5, 8, 13]) if r else 5
             if "_S" in name:
                 return r.choice([1, 2, 3]) if r else 2
+            if name in ("n", "t_i"):
+                return r.choice([-1, 0, 0, 1, 1, 2, 3, 4, 5, 8, 13]) if r else 2
             if name.endswith("_step"):
                 return r.choice([1, 1, 2, 3, 7]) if r else 1
             return r.randint(-9, 9) if r else 1
         if kind == "real":
+            if name == "t_s":
+                return Fraction(r.choice([-4, -2, 0, 0, 1, 2, 3, 4, 5, 6, 8, 9, 13, 17, 20, 32, 51, 52]), 4) if r else Fraction(5, 4)
             if name.endswith("_scale"):
                 return Fraction(r.choice([1, 1, 2, 3, 5, 12, 40])) if r else Fraction(3)
             if name == "sh" or name == "sh_n":
